@@ -363,6 +363,8 @@ def classify_run(out, n, traps):
 def run_check(tier, repo_note=""):
     t0 = time.time()
     common.ensure_dirs()
+    import shutil
+    shutil.rmtree(os.path.join(common.WORK, "x64", "smt2", "c13"), ignore_errors=True)   # dumps of this run only
     build.toolchain()
     traps = build.trap_kinds()
     for need in ("OVERFLOW", "OOM", "INDEX_OUT_OF_BOUNDS"):
